@@ -22,6 +22,21 @@ re-generated from its parameter list (left operand of +, x+=x, copy()), so addit
 evaluated both ways.  Three ledgers: (1) the operands' data AS CONSTRUCTED in the case (the
 literal statement), (2) the same components built separately inside energy_units('1/cm'),
 (3) per leaf, the component built in internal units from the converted parameters.
+
+Three further complete sub-products (each described at its section below):
+  LIST     composites built from a LIST of parameter dictionaries: every sequence (every order,
+           with repetition) of components x every assignment of two temperatures to the
+           positions x construction unit x route (parameters only / parameters + values);
+           mixed temperatures must be refused wherever the odd component stands and whatever
+           the correlation times before it are; legal lists are the sum of their components.
+  FTSUM    sums of the frequency-domain parts (Even/Odd/FTCorrelationFunction, generic
+           DFunction addition): every '+' tree over shared part objects, evaluated twice;
+           ledger = the parts' data BEFORE any addition; operands unchanged; parities before
+           and after use as operands.
+  MEASURE  histories interleaving measure_reorganization_energy() (in every context) with
+           every mutation route (+=, add_to_data, add_to_data2, x = x + y, x += x) of a
+           correlation function / spectral density: measured == declared == measurement of
+           a new object holding the same data, after every step.
 """
 import itertools
 
@@ -48,6 +63,8 @@ CF_LEAVES = {
     "y": dict(ftype="B777", reorg=102.0, gamma=30.0, T=300.0, alternative_form=True),
     "z": dict(ftype="CP29", reorg=50.0, gamma=30.0, T=300.0),
     "o": dict(ftype="OverdampedBrownian_from_Specdens", reorg=20.0, cortime=50.0, T=300.0),
+    # list-built composites only: another type with the correlation time of "a"
+    "e": dict(ftype="OverdampedBrownian-HighTemperature", reorg=12.0, cortime=50.0, T=300.0),
 }
 SD_LEAVES = {
     "a": dict(ftype="OverdampedBrownian", reorg=20.0, cortime=50.0, T=300.0),
@@ -95,7 +112,19 @@ def _conv(val, unit):
     return float(qr.convert(val, "1/cm", to=unit))
 
 
-def make_leaf(cls, name, unit, ta):
+def params_of(cls, name, unit, T=None):
+    """Parameter dictionary of an analytic leaf, energies given in `unit`; T overrides the
+    temperature of the alphabet entry."""
+    p = dict(spec_of(cls, name))
+    for k in ENERGY_KEYS:
+        if k in p:
+            p[k] = _conv(p[k], unit)
+    if T is not None:
+        p["T"] = float(T)
+    return p
+
+
+def make_leaf(cls, name, unit, ta, T=None):
     """Build one leaf under energy_units(unit), its parameters given in that unit."""
     qr = isolation.qr()
     if cls == "cf":
@@ -108,17 +137,11 @@ def make_leaf(cls, name, unit, ta):
                 return qr.CorrelationFunction(ta, dict(ftype="Value-defined",
                                                        reorg=_conv(15.0, unit), T=300.0),
                                               values=vals)
-        p = dict(spec)
-        for k in ENERGY_KEYS:
-            if k in p:
-                p[k] = _conv(p[k], unit)
+        p = params_of(cls, name, unit, T)
         with qr.energy_units(unit):
             return qr.CorrelationFunction(ta, p)
     else:
-        p = dict(SD_LEAVES[name])
-        for k in ENERGY_KEYS:
-            if k in p:
-                p[k] = _conv(p[k], unit)
+        p = params_of(cls, name, unit, T)
         with qr.energy_units(unit):
             return qr.SpectralDensity(ta, p)
 
@@ -130,19 +153,20 @@ class Comp(object):
         self.data = numpy.array(f.data, copy=True)
         self.lamb = float(f.lamb)
         self.temperature = float(getattr(f, "temperature", -1.0))
+        self.cutoff_time = float(getattr(f, "cutoff_time", -1.0))
         self.params = [dict(p) for p in f.params]
 
 
 _LEDGER = {}
 
 
-def ledger(cls, name, unit, ta):
+def ledger(cls, name, unit, ta, T=None):
     """The component `name` built on its own inside energy_units(unit).  Construction is a
     deterministic function of (class, parameters, unit) on the fixed time axis, so the record
     is kept per worker process (records are never handed to the library)."""
-    key = (cls, name, unit)
+    key = (cls, name, unit, T)
     if key not in _LEDGER:
-        _LEDGER[key] = Comp(make_leaf(cls, name, unit, ta))
+        _LEDGER[key] = Comp(make_leaf(cls, name, unit, ta, T))
     return _LEDGER[key]
 
 
@@ -282,7 +306,7 @@ def leaf_units(case, n):
     return [pat[i % len(pat)] for i in range(n)]
 
 
-def eval_case(case):
+def eval_tree(case):
     qr = isolation.qr()
     cls, tree, addctx = case["cls"], case["tree"], case["add_ctx"]
     ta = qr.TimeAxis(0.0, NT, DT)
@@ -440,6 +464,592 @@ def eval_case(case):
                              round(float(numpy.abs(numpy.asarray(res.data)).sum()), 9)]})
 
 
+# =====================================================================================
+# Sub-product LIST: composites built from a LIST of parameter dictionaries
+# =====================================================================================
+# Every sequence (with repetition, every order) of <= 3 (quick) / <= 4 (thorough, core shapes)
+# components x every assignment of the temperatures LIST_T to the positions x every
+# construction unit x construction route:
+#   "params":  CorrelationFunction(ta, [p1, p2, ...]) / SpectralDensity(ta, [p1, ...])
+#   "values":  CorrelationFunction(ta, [p1, p2, ...], values=...)  (the route
+#              SpectralDensity.get_CorrelationFunction uses for composites)
+# The shapes have different, equal ("a"/"e", repetitions) and incomparable correlation times,
+# so that the component with the deviating temperature stands before / after components with
+# shorter, equal and longer correlation times, in every position.
+# Oracle: a sequence with two different temperatures is refused; a legal one has the data /
+# reorganisation energy / component list / temperature / cut-off time of the sum of the
+# separately built components (ledger at the temperature of the sequence).
+LIST_T = [300.0, 77.0]
+LIST_CORE = {"cf": ["a", "b", "c", "e"], "sd": ["a", "b", "c"]}
+LIST_EXT = {"cf": ["u", "w"], "sd": ["w", "p", "q"]}
+
+
+def _values(ta):
+    t = ta.data
+    return (3e-5 * numpy.exp(-t / 80.0) * numpy.cos(t / 37.0)
+            - 1j * 2e-5 * numpy.exp(-t / 60.0))
+
+
+def _cls(cls):
+    qr = isolation.qr()
+    return qr.CorrelationFunction if cls == "cf" else qr.SpectralDensity
+
+
+def _special_suffix(cls, names):
+    special = sorted(set(ftype_of(cls, n) for n in names
+                         if n in EXT[cls] or n in OPTIONAL[cls]))
+    return "/with-" + "+".join(special) if special else ""
+
+
+def _kind_of(cls, names):
+    return "mixed-types" if len(set(ftype_of(cls, n) for n in names)) > 1 else "same-type"
+
+
+def seq_str(seq):
+    return "[" + ", ".join("%s@%gK" % (n, T) for n, T in seq) + "]"
+
+
+def eval_list(case):
+    qr = isolation.qr()
+    cls, seq, unit, route = case["cls"], case["seq"], case["unit"], case["route"]
+    ta = qr.TimeAxis(0.0, NT, DT)
+    viol = []
+    names = [n for n, _ in seq]
+    temps = sorted(set(float(T) for _, T in seq))
+    suffix = _special_suffix(cls, names)
+    variant = "%s/list-built/%s" % (cls, route)
+    label = "%s built in %s (%s)" % (seq_str(seq), unit, route)
+
+    def done(res):
+        res["violations"] = _finish(viol, suffix)
+        return res
+
+    plist = [params_of(cls, n, unit, T) for n, T in seq]
+    vals = _values(ta) if route == "values" else None
+    try:
+        with qr.energy_units(unit):
+            if vals is None:
+                f = _cls(cls)(ta, plist)
+            else:
+                f = _cls(cls)(ta, plist, values=numpy.array(vals, copy=True))
+    except Exception as e:
+        if cls == "cf" and len(temps) > 1:
+            return done({"nontrivial": True,
+                         "outcome": ["list-refused-different-T", seq_str(seq), unit, route]})
+        viol.append(("admissible-composite-refused/%s" % variant,
+                     "%s raised: %s" % (label, str(e)[:100]), None))
+        return done({"nontrivial": True, "outcome": ["list-refused", seq_str(seq), unit, route]})
+    if cls == "cf" and len(temps) > 1:
+        viol.append(("different-temperatures-accepted/%s" % variant,
+                     "%s was accepted although the temperatures %s differ (temperature "
+                     "reported: %r)" % (label, temps, getattr(f, "temperature", None)), None))
+        return done({"nontrivial": True,
+                     "outcome": ["list-accepted-different-T", seq_str(seq), unit, route]})
+    kind = _kind_of(cls, names)
+    decl_exp = sum(spec_of(cls, n)["reorg"] for n in names)
+    if vals is None:
+        comps = [ledger(cls, n, "1/cm", ta, T) for n, T in seq]
+        exp_data = sum((c.data for c in comps[1:]), numpy.array(comps[0].data, copy=True))
+        exp_lamb = sum(c.lamb for c in comps)
+    else:
+        comps = None
+        exp_data = vals
+        exp_lamb = _conv(decl_exp, "int")
+    ok, err = approx(f.data, exp_data, TOL)
+    if not ok:
+        viol.append(("data-not-sum-of-components/%s/%s" % (variant, kind),
+                     "%s: data differs from the sum of the separately built components' data "
+                     "by %g (scale %g)" % (label, err, float(numpy.max(numpy.abs(exp_data)))),
+                     {"err": err}))
+    if abs(float(f.lamb) - exp_lamb) > 1e-10 * abs(exp_lamb):
+        viol.append(("reorganisation-energy-not-additive/%s" % variant,
+                     "%s: lamb %r, sum of components %r" % (label, float(f.lamb), exp_lamb),
+                     None))
+    with qr.energy_units("1/cm"):
+        declared = float(f.get_reorganization_energy())
+    if abs(declared - decl_exp) > 1e-6 * decl_exp:
+        viol.append(("declared-reorganisation-energy/%s" % variant,
+                     "%s: get_reorganization_energy() = %r 1/cm, declared sum %r"
+                     % (label, declared, decl_exp), None))
+    if len(f.params) != len(seq):
+        viol.append(("component-list-length/%s" % variant,
+                     "%s: %d components recorded, %d given" % (label, len(f.params), len(seq)),
+                     None))
+    else:
+        got = [(p["ftype"], round(float(p["reorg"]), 12)) for p in f.params]
+        exp = [(ftype_of(cls, n), round(_conv(spec_of(cls, n)["reorg"], "int"), 12))
+               for n in names]
+        if got != exp:
+            viol.append(("component-list-content/%s" % variant,
+                         "%s: recorded components %r, given %r" % (label, got, exp), None))
+    if cls == "cf":
+        if float(f.temperature) != temps[0]:
+            viol.append(("temperature-of-composite/%s" % variant,
+                         "%s: temperature %r" % (label, f.temperature), None))
+        if comps is not None:
+            want = max(c.cutoff_time for c in comps)
+            if abs(float(f.cutoff_time) - want) > 1e-9 * abs(want):
+                viol.append(("cutoff-time-of-composite/%s" % variant,
+                             "%s: cut-off time %r, the longest one of the components is %r"
+                             % (label, float(f.cutoff_time), want), None))
+    if vals is None:
+        try:
+            cp = f.copy()
+        except Exception as e:
+            cp = None
+            viol.append(("rebuild-from-components-raises/%s/list-built" % cls, str(e)[:100],
+                         None))
+        if cp is not None:
+            ok, err = approx(cp.data, exp_data, TOL)
+            if not ok:
+                viol.append(("rebuild-from-components-differs/%s/%s/list-built" % (cls, kind),
+                             "%s: a copy rebuilt from the recorded components differs from "
+                             "the sum by %g" % (label, err), {"err": err}))
+            if abs(float(cp.lamb) - float(f.lamb)) > 1e-10 * abs(float(f.lamb)):
+                viol.append(("copy-reorganisation-energy-differs/%s/list-built" % cls,
+                             "%s: copy().lamb %r, original %r"
+                             % (label, float(cp.lamb), float(f.lamb)), None))
+    return done({"nontrivial": len(seq) >= 2,
+                 "outcome": [seq_str(seq), unit, route, round(float(f.lamb), 9),
+                             round(float(numpy.abs(numpy.asarray(f.data)).sum()), 9)]})
+
+
+def list_cases(tier):
+    cs = []
+    for cls in ("cf", "sd"):
+        core, ext = LIST_CORE[cls], LIST_EXT[cls]
+        avail = [x for x in OPTIONAL[cls] if constructible(cls, x)]
+        temps = LIST_T if cls == "cf" else LIST_T[:1]
+        nmax = 3 if tier == "quick" else 4
+        seqs, have = [], set()
+        # (alphabet of shapes, maximal length)
+        for alpha, n_to in ((core + ext, 3), (core, nmax), (core + ext + avail, 2)):
+            syms = [(x, T) for x in alpha for T in temps]
+            for n in range(1, n_to + 1):
+                for sq in itertools.product(syms, repeat=n):
+                    k = seq_str(sq)
+                    if k not in have:
+                        have.add(k)
+                        seqs.append([list(x) for x in sq])
+        for sq in seqs:
+            for unit in UNITS[tier]:
+                for route in (("params", "values") if cls == "cf" else ("params",)):
+                    cs.append({"kind": "list", "cls": cls, "seq": sq, "unit": unit,
+                               "route": route})
+    cs.sort(key=lambda c: len(c["seq"]))
+    return cs
+
+
+# =====================================================================================
+# Sub-product FTSUM: sums of the frequency-domain parts
+# =====================================================================================
+# EvenFTCorrelationFunction / OddFTCorrelationFunction / FTCorrelationFunction have no
+# addition of their own (DFunction.__add__).  Every binary '+' tree with <= 3 (quick) / <= 4
+# (thorough, even and odd parts) leaves over the part alphabet {E, O, F} x sources, every
+# grouping and order, leaves with repetition; EQUAL SYMBOLS ARE THE SAME OBJECT (an operand is
+# used again), and every tree is evaluated twice on the same objects.  Sources: the leaves a,
+# b (c) and the composite a+b; two routes to a part: the getter of the correlation function /
+# the constructor inside energy_units('1/cm') from the declared parameters.
+# Oracle: ledger of the parts' data taken BEFORE any addition: data of every sum == sum of
+# the ledger entries of its leaves (both evaluations); no operand changes (checked after every
+# '+' and after the whole history); even / odd parts are even / odd before and after they
+# were used as operands; the part of a composite is the sum of the parts of its components.
+# A complex-valued part (F) is only added to a complex-valued left operand (a real-valued
+# left operand cannot hold the sum; E + F raises in numpy - not a statement of C09).
+FT_CLASS = {"E": "EvenFTCorrelationFunction", "O": "OddFTCorrelationFunction",
+            "F": "FTCorrelationFunction"}
+FT_SOURCES = {"a": ["a"], "b": ["b"], "c": ["c"], "ab": ["a", "b"]}
+FT_PARITY = {"E": ("even", 1.0), "O": ("odd", -1.0)}
+
+
+def _parity(ft, sgn):
+    """(deviation from the parity, largest imaginary part, scale) on the symmetric grid."""
+    w = ft.axis.data
+    y = numpy.asarray(ft.data)
+    n0 = int(numpy.argmin(numpy.abs(w)))
+    m = min(n0, len(w) - 1 - n0)
+    k = numpy.arange(1, m + 1)
+    dev = float(numpy.max(numpy.abs(y[n0 + k] - sgn * y[n0 - k])))
+    return dev, float(numpy.max(numpy.abs(numpy.imag(y)))), float(numpy.max(numpy.abs(y)))
+
+
+def _ft_part(part, src, route, ta, sources):
+    qr = isolation.qr()
+    import quantarhei.qm.corfunctions.correlationfunctions as mod
+    if route == "getter":
+        if src not in sources:
+            objs = [make_leaf("cf", n, "1/cm", ta) for n in FT_SOURCES[src]]
+            cf = objs[0]
+            for o in objs[1:]:
+                cf = cf + o
+            sources[src] = cf
+        return getattr(sources[src], "get_" + FT_CLASS[part])()
+    pl = [params_of("cf", n, "1/cm") for n in FT_SOURCES[src]]
+    with qr.energy_units("1/cm"):
+        return getattr(mod, FT_CLASS[part])(ta, pl[0] if len(pl) == 1 else pl)
+
+
+def _ft_build(tree, objs, viol):
+    """Evaluate a '+' tree on shared objects; operands are checked after every '+'."""
+    if isinstance(tree, str):
+        return objs[tree], [tree]
+    _, l, r = tree
+    L, il = _ft_build(l, objs, viol)
+    R, ir = _ft_build(r, objs, viol)
+    sl = numpy.array(L.data, copy=True)
+    sr = numpy.array(R.data, copy=True)
+    out = L + R
+    if not numpy.array_equal(numpy.asarray(L.data), sl):
+        viol.append(("ft-part-addition-changed-left-operand/%s" % type(L).__name__,
+                     "x + y changed the data of x (%s) by %g"
+                     % (type(L).__name__,
+                        float(numpy.max(numpy.abs(numpy.asarray(L.data) - sl)))), None))
+    if R is not L and not numpy.array_equal(numpy.asarray(R.data), sr):
+        viol.append(("ft-part-addition-changed-right-operand/%s" % type(R).__name__,
+                     "x + y changed the data of y (%s)" % type(R).__name__, None))
+    return out, il + ir
+
+
+def eval_ftsum(case):
+    qr = isolation.qr()
+    tree, route = case["tree"], case["route"]
+    ta = qr.TimeAxis(0.0, NT, DT)
+    viol = []
+    syms = sorted(set(leaves_of(tree)))
+    sources, objs, snap = {}, {}, {}
+    for s_ in syms:
+        part, src = s_.split(":")
+        objs[s_] = _ft_part(part, src, route, ta, sources)
+        snap[s_] = numpy.array(objs[s_].data, copy=True)
+    # fresh parts: parity; the part of a composite is the sum of the components' parts
+    for s_ in syms:
+        part, src = s_.split(":")
+        if part in FT_PARITY:
+            nm, sgn = FT_PARITY[part]
+            dev, im, sc = _parity(objs[s_], sgn)
+            if dev > 1e-9 * sc or im > 1e-9 * sc:
+                viol.append(("ft-part-parity/%s/fresh/%s" % (nm, route),
+                             "%s: %s FT part deviates from %s parity by %g (scale %g)"
+                             % (s_, nm, nm, dev, sc), None))
+            if len(FT_SOURCES[src]) > 1:
+                ref = None
+                for n in FT_SOURCES[src]:
+                    d = numpy.array(_ft_part(part, n, route, ta, sources).data, copy=True)
+                    ref = d if ref is None else ref + d
+                ok, err = approx(snap[s_], ref, TOL)
+                if not ok:
+                    viol.append(("ft-part-of-sum-not-sum-of-parts/%s/%s" % (nm, route),
+                                 "%s: the %s FT part of a+b differs from the sum of the "
+                                 "components' parts by %g (scale %g)"
+                                 % (s_, nm, err, float(numpy.max(numpy.abs(ref)))),
+                                 {"err": err}))
+    lv = leaves_of(tree)
+    expected = sum((snap[x] for x in lv[1:]), numpy.array(snap[lv[0]], copy=True))
+    pk = "+".join(sorted(set(x.split(":")[0] for x in lv)))
+    sc = float(numpy.max(numpy.abs(expected)))
+    res = None
+    if len(lv) > 1:
+        for nth in ("first", "second"):
+            res, idx = _ft_build(tree, objs, viol)
+            ok, err = approx(res.data, expected, TOL)
+            if not ok:
+                viol.append(("ft-part-sum-not-sum-of-operands/%s-evaluation/%s" % (nth, pk),
+                             "%s (%s evaluation on the same objects): data differs from the "
+                             "sum of the data the operands had before any addition by %g "
+                             "(scale %g)" % (tree_str(tree), nth, err, sc), {"err": err}))
+    # the operands after the history
+    for s_ in syms:
+        part, src = s_.split(":")
+        now = numpy.asarray(objs[s_].data)
+        if not numpy.array_equal(now, snap[s_]):
+            viol.append(("ft-part-changed-by-use-as-operand/%s" % part,
+                         "%s: %s changed by %g (scale %g) after it was used as an operand"
+                         % (tree_str(tree), s_, float(numpy.max(numpy.abs(now - snap[s_]))),
+                            float(numpy.max(numpy.abs(snap[s_])))), None))
+        if part in FT_PARITY and len(lv) > 1:
+            nm, sgn = FT_PARITY[part]
+            dev, im, sc_ = _parity(objs[s_], sgn)
+            if dev > 1e-9 * sc_ or im > 1e-9 * sc_:
+                viol.append(("ft-part-parity/%s/after-use-as-operand" % nm,
+                             "%s: %s is no longer %s in frequency after it was used as an "
+                             "operand (deviation %g, scale %g)"
+                             % (tree_str(tree), s_, nm, dev, sc_), None))
+    out = numpy.asarray(res.data) if res is not None else expected
+    return {"nontrivial": len(lv) >= 2, "violations": _finish(viol, ""),
+            "outcome": [tree_str(tree), route, round(float(numpy.abs(out).sum()), 9)]}
+
+
+def _has_part(tree, part):
+    return any(x.startswith(part + ":") for x in leaves_of(tree))
+
+
+def _ft_admissible(tree):
+    """complex-valued operands only onto complex-valued left operands"""
+    if isinstance(tree, str):
+        return True
+    _, l, r = tree
+    if _has_part(r, "F") and not _has_part(l, "F"):
+        return False
+    return _ft_admissible(l) and _ft_admissible(r)
+
+
+def ftsum_cases(tier):
+    alpha3 = ["E:a", "O:a", "F:a", "E:b", "O:b", "F:b", "E:ab", "O:ab"]
+    trees, have = [], set()
+
+    def add(alpha, nmax):
+        for n in range(1, nmax + 1):
+            for t in all_trees(alpha, n):
+                if _ft_admissible(t) and tree_str(t) not in have:
+                    have.add(tree_str(t))
+                    trees.append(t)
+    add(alpha3, 3)
+    if tier == "thorough":
+        add(["E:a", "O:a", "E:b", "O:b", "E:c", "O:c"], 4)
+        add(alpha3 + ["E:c", "O:c", "F:c"], 3)
+    cs = [{"kind": "ftsum", "tree": t, "route": route}
+          for t in trees for route in ("getter", "constructor")]
+    cs.sort(key=lambda c: len(leaves_of(c["tree"])))
+    return cs
+
+
+# =====================================================================================
+# Sub-product MEASURE: histories interleaving measurements with every mutation route
+# =====================================================================================
+# One object x (a leaf of an analytically defined type, or a composite built from a list);
+# history of <= 2 (quick) / <= 3 (thorough) steps, every step one of
+#   x += y | x.add_to_data(y) | x.add_to_data2(y) | x = x + y | x += x
+# with every operand y of the alphabet; before every step x is measured or not (for a
+# correlation function: inside energy_units('1/cm') or in internal units), and always after
+# the last step (in every context); the operands were measured before use or not.
+# Oracle after every step: data / lamb / component list == ledger sum; whenever measured:
+#   measure_reorganization_energy() == declared sum   (class Q 1e-3, correlation function;
+#       spectral density: class T - the tail beyond the last frequency, which the integral
+#       cannot contain, is computed for the overdamped Brownian form - and 2e-3),
+#   == the measurement of a NEW object holding a copy of the current data (rounding): the
+#       measurement is a function of the current data,
+#   reorganization_energy_consistent() is True (correlation function).
+MEAS_OPS = ["iadd", "add_to_data", "add_to_data2", "plus"]
+MEAS_CTX = {"cf": ["1/cm", "int"], "sd": ["int"]}
+# spectral density: measure_reorganization_energy() does not convert to the current units,
+# the measurement is taken in internal units only.
+
+
+def _sd_expected_measured(names, ta):
+    """Declared reorganisation energy (internal units) minus the part of the integral that
+    lies beyond the last point of the frequency axis (overdamped Brownian: Drude tail)."""
+    wmax = numpy.pi / ta.step
+    tot = 0.0
+    for n in names:
+        sp = SD_LEAVES[n]
+        lam = _conv(sp["reorg"], "int")
+        if sp["ftype"] == "OverdampedBrownian":
+            lam *= (2.0 / numpy.pi) * numpy.arctan(wmax * sp["cortime"])
+        tot += lam
+    return tot
+
+
+def _measure(cls, x, ctx, names, ta, viol, where, full=True):
+    """One measurement of x in the context ctx with all oracles; full=False: without
+    reorganization_energy_consistent()."""
+    qr = isolation.qr()
+    lam = float(x.lamb)
+    data = numpy.array(x.data, copy=True)
+    cons = True
+    if cls == "cf":
+        with qr.energy_units(ctx):
+            meas = float(x.measure_reorganization_energy())
+            if full:
+                cons = bool(x.reorganization_energy_consistent())
+        with qr.energy_units("int"):
+            holder = qr.CorrelationFunction(ta, dict(ftype="Value-defined", reorg=lam,
+                                                     T=300.0), values=data)
+        with qr.energy_units(ctx):
+            mref = float(holder.measure_reorganization_energy())
+        want = _conv(sum(CF_LEAVES[n]["reorg"] for n in names), ctx)
+        tolq = 1e-3
+    else:
+        meas = float(x.measure_reorganization_energy())
+        holder = qr.SpectralDensity(x.axis, [dict(ftype="Value-defined", reorg=lam, T=300.0)],
+                                    values=data)
+        mref = float(holder.measure_reorganization_energy())
+        want = _sd_expected_measured(names, ta)
+        tolq = 2e-3
+    tag = "%s/measured-in-%s" % (cls, ctx)
+    if not abs(meas - want) <= tolq * abs(want):
+        viol.append(("measured-reorganisation-energy/history/%s" % tag,
+                     "%s: measured %r, declared %r (units: %s)" % (where, meas, want, ctx),
+                     None))
+    if not abs(meas - mref) <= 1e-10 * abs(mref):
+        viol.append(("measured-reorganisation-energy-not-of-current-data/%s" % tag,
+                     "%s: measured %r, but a new object holding the same data measures %r"
+                     % (where, meas, mref), None))
+    if not cons:
+        viol.append(("reorganization-energy-consistent-false/%s" % tag,
+                     "%s: reorganization_energy_consistent() is False" % where, None))
+    return meas
+
+
+def hist_str(case):
+    st = case["start"]
+    s = st[1] if st[0] == "leaf" else "list[" + ",".join(st[1]) + "]"
+    out = ["x=" + s]
+    sym = {"iadd": "x+=%s", "add_to_data": "x.add_to_data(%s)",
+           "add_to_data2": "x.add_to_data2(%s)", "plus": "x=x+%s", "iadd-self": "x+=x%s",
+           "add_to_data-self": "x.add_to_data(x)%s"}
+    for op, y, m in case["steps"]:
+        if m:
+            out.append("measure[%s]" % m)
+        out.append(sym[op] % (y or ""))
+    out.append("measure")
+    return "; ".join(out)
+
+
+def eval_measure(case):
+    qr = isolation.qr()
+    cls, start, steps = case["cls"], case["start"], case["steps"]
+    ta = qr.TimeAxis(0.0, NT, DT)
+    viol = []
+    hs = hist_str(case)
+    if start[0] == "leaf":
+        names = [start[1]]
+        x = make_leaf(cls, start[1], "1/cm", ta)
+    else:
+        names = list(start[1])
+        with qr.energy_units("1/cm"):
+            x = _cls(cls)(ta, [params_of(cls, n, "1/cm") for n in names])
+    for k, (op, yname, mflag) in enumerate(steps):
+        where = "%s [before step %d]" % (hs, k + 1)
+        if mflag:
+            _measure(cls, x, mflag, names, ta, viol, where, full=False)
+        where = "%s [step %d]" % (hs, k + 1)
+        if op == "iadd-self":
+            x += x
+            names = names + names
+        elif op == "add_to_data-self":
+            # x.add_to_data(x): guarded by an alarm, the defect repaired by 1f6043a/d395afa
+            # (parameter list appended to while iterating over it) never returned
+            import signal
+
+            def _boom(signum, frame):
+                raise MemoryError("x.add_to_data(x) did not return within 2 s")
+            old_h = signal.signal(signal.SIGALRM, _boom)
+            signal.alarm(2)
+            try:
+                x.add_to_data(x)
+            except MemoryError as e:
+                viol.append(("self-addition-does-not-return/%s/add_to_data" % cls,
+                             "%s: %s" % (where, e), None))
+                return {"nontrivial": True, "outcome": ["hang"], "violations": viol}
+            finally:
+                signal.alarm(0)
+                signal.signal(signal.SIGALRM, old_h)
+            names = names + names
+        else:
+            y = make_leaf(cls, yname, "1/cm", ta)
+            if case["operand_measured"]:
+                for ctx in MEAS_CTX[cls]:
+                    _measure(cls, y, ctx, [yname], ta, viol, where + " operand", full=False)
+            sy = _snap(y)
+            sx = _snap(x)
+            if op == "iadd":
+                x += y
+            elif op == "add_to_data":
+                x.add_to_data(y)
+            elif op == "add_to_data2":
+                x.add_to_data2(y)
+            else:
+                old = x
+                x = old + y
+                if not _same(old, sx):
+                    viol.append(("addition-changed-left-operand/%s/history" % cls,
+                                 "%s: x + y changed x" % where, None))
+            if not _same(y, sy):
+                viol.append(("addition-changed-right-operand/%s/history/%s" % (cls, op),
+                             "%s: the operand changed" % where, None))
+            names = names + [yname]
+        comps = [ledger(cls, n, "1/cm", ta) for n in names]
+        exp_data = sum((c.data for c in comps[1:]), numpy.array(comps[0].data, copy=True))
+        exp_lamb = sum(c.lamb for c in comps)
+        ok, err = approx(x.data, exp_data, TOL)
+        if not ok:
+            viol.append(("data-not-sum-of-components/%s/history/%s" % (cls, op),
+                         "%s: data differs from the sum of the components' data by %g "
+                         "(scale %g)" % (where, err, float(numpy.max(numpy.abs(exp_data)))),
+                         {"err": err}))
+        if abs(float(x.lamb) - exp_lamb) > 1e-10 * abs(exp_lamb):
+            viol.append(("reorganisation-energy-not-additive/%s/history/%s" % (cls, op),
+                         "%s: lamb %r, sum of components %r" % (where, float(x.lamb), exp_lamb),
+                         None))
+        if len(x.params) != len(names):
+            viol.append(("component-list-length/%s/history/%s" % (cls, op),
+                         "%s: %d components recorded, %d added"
+                         % (where, len(x.params), len(names)), None))
+    first = {}
+    for ctx in MEAS_CTX[cls]:
+        first[ctx] = _measure(cls, x, ctx, names, ta, viol, hs + " [after the last step]")
+    # a second measurement of the unchanged object gives the same value
+    for ctx in MEAS_CTX[cls]:
+        if cls == "cf":
+            with qr.energy_units(ctx):
+                again = float(x.measure_reorganization_energy())
+        else:
+            again = float(x.measure_reorganization_energy())
+        if not abs(again - first[ctx]) <= 1e-12 * abs(first[ctx]):
+            viol.append(("second-measurement-differs/%s/measured-in-%s" % (cls, ctx),
+                         "%s: measured %r, measured again %r" % (hs, first[ctx], again), None))
+    last = first["int"]
+    return {"nontrivial": len(steps) >= 1, "violations": _finish(viol, ""),
+            "outcome": [hs, case["operand_measured"], round(float(last) * 1e6, 6)]}
+
+
+def measure_cases(tier):
+    cs = []
+    for cls in ("cf", "sd"):
+        mflags = [0] + MEAS_CTX[cls]
+
+        def histories(starts, leaves, kmax):
+            choices = [[op, y] for op in MEAS_OPS for y in leaves] + [["iadd-self", None],
+                                                                             ["add_to_data-self", None]]
+            for st in starts:
+                for k in range(0, kmax + 1):
+                    for ops in itertools.product(choices, repeat=k):
+                        for ms in itertools.product(mflags, repeat=k):
+                            yield st, [[o[0], o[1], m] for o, m in zip(ops, ms)]
+        if tier == "quick":
+            plan = [([["leaf", "a"], ["leaf", "b"], ["list", ["a", "b"]]], ["a", "b"], 2,
+                     (False,)),
+                    ([["leaf", "a"], ["leaf", "b"], ["list", ["a", "b"]]], ["a", "b"], 1,
+                     (True,))]
+        else:
+            plan = [([["leaf", "a"], ["leaf", "b"], ["list", ["a", "b"]]], ["a", "b"], 2,
+                     (False, True)),
+                    ([["leaf", "a"], ["leaf", "b"], ["list", ["a", "b"]]], ["b"], 3,
+                     (False,)),
+                    ([["leaf", "a"], ["leaf", "b"], ["leaf", "c"], ["list", ["a", "b"]],
+                      ["list", ["b", "c", "a"]]], ["a", "b", "c"], 2, (False, True))]
+        have = set()
+        for starts, leaves, kmax, opms in plan:
+            for st, steps in histories(starts, leaves, kmax):
+                for opm in opms:
+                    c = {"kind": "measure", "cls": cls, "start": st, "steps": steps,
+                         "operand_measured": opm}
+                    k = hist_str(c) + str(opm)
+                    if k not in have:
+                        have.add(k)
+                        cs.append(c)
+    cs.sort(key=lambda c: len(c["steps"]))
+    return cs
+
+
+KINDS = {"list": eval_list, "ftsum": eval_ftsum, "measure": eval_measure}
+
+
+def eval_case(case):
+    return KINDS.get(case.get("kind"), eval_tree)(case)
+
+
+
 def _finish(viol, suffix):
     """One violation per key; cases containing a component of the extended / optional ftypes
     carry those ftypes in every result-level key (per-component keys name the ftype anyway)."""
@@ -537,7 +1147,7 @@ def constructible(cls, name):
         isolation.reset_manager()
 
 
-def cases(tier):
+def tree_cases(tier):
     kmax = 3 if tier == "quick" else 4
     cs = []
     for cls in ("cf", "sd"):
@@ -585,22 +1195,55 @@ def cases(tier):
     return cs
 
 
+SECTIONS = [("addition-trees", tree_cases), ("list-built-composites", list_cases),
+            ("sums-of-frequency-domain-parts", ftsum_cases),
+            ("measurement-histories", measure_cases)]
+
+
+def cases(tier):
+    out = []
+    for _, gen in SECTIONS:
+        out += gen(tier)
+    return out
+
+
 def run(run):
     run.rule = ("every binary '+' tree (all groupings, all orders, leaves with repetition) and "
                 "every in-place chain over the leaf alphabet (every ftype that can be built from "
                 "parameters) x construction unit of every leaf (complete per-leaf product up to "
                 "2 leaves, uniform + all rotations above) x units context of the additions, for "
-                "CorrelationFunction and SpectralDensity; non-trivial = at least two leaves")
+                "CorrelationFunction and SpectralDensity; every list-built composite (all "
+                "sequences of components x temperature per position x unit x route); every '+' "
+                "tree over shared frequency-domain part objects x route to the part, evaluated "
+                "twice; every history of measurements and mutation routes on one object; "
+                "non-trivial = at least two leaves / components / one mutation step")
     run.assumptions = ["components' own data (each built separately by the library) are the "
                        "additivity ledger; the analytic formulas themselves belong to C06",
                        "value-defined functions only as right-hand operands (as the property says)",
                        "temperature refusal is checked for correlation functions only (a spectral "
                        "density does not depend on temperature)",
                        "measured reorganisation energy / FT parity only for the ftypes the "
-                       "library calls analytical (OverdampedBrownian, -HighTemperature)",
+                       "library calls analytical (OverdampedBrownian, -HighTemperature); spectral "
+                       "density histories: OverdampedBrownian with the computed tail beyond the "
+                       "last frequency (class T) and UnderdampedBrownian (2e-3), measured in "
+                       "internal units only (SpectralDensity.measure_reorganization_energy does "
+                       "not convert to the current units)",
+                       "frequency-domain parts: a complex-valued part (FTCorrelationFunction) is "
+                       "only added to a complex-valued left operand; FTCorrelationFunction of a "
+                       "single component only (of a composite it is not part of the statement)",
                        "ftype variants that cannot be constructed at all (in internal units) are "
                        "probed only: %r" % OPTIONAL]
-    run.bounds = {"max_leaves": 3 if run.tier == "quick" else 4, "time_axis": [NT, DT],
-                  "max_leaves_extended_ftypes": 2 if run.tier == "quick" else 3,
-                  "construction_units": UNITS[run.tier]}
-    run_grid(run, cases(run.tier), eval_case, cap_s=55 if run.tier == "quick" else 720)
+    q = run.tier == "quick"
+    run.bounds = {"max_leaves": 3 if q else 4, "time_axis": [NT, DT],
+                  "max_leaves_extended_ftypes": 2 if q else 3,
+                  "construction_units": UNITS[run.tier],
+                  "list_built": {"max_components": 3 if q else 4, "temperatures": LIST_T,
+                                 "max_components_all_ftypes": 3},
+                  "ft_part_sums": {"max_leaves": 3 if q else 4},
+                  "measurement_histories": {"max_mutation_steps": 2 if q else 3}}
+    import time
+    t0 = time.time()
+    cap = 55 if run.tier == "quick" else 720
+    for name, gen in SECTIONS:
+        run_grid(run, gen(run.tier), eval_case, cap_s=max(1.0, cap - (time.time() - t0)),
+                 section=name)
